@@ -5,7 +5,8 @@ import random
 
 import z3
 
-from harness.common import Ctx, Scenario, byte_obligation
+from harness.common import Ctx, byte_obligation, mi, read_scenario
+from oracles.mem import SymMem, SymOpaque
 from oracles import vhdx as spec
 from symx import core, files, layouts, loader, replay
 from symx.core import bvval as V
@@ -35,19 +36,6 @@ def load():
     return m
 
 
-def sample_positions(rng, total, unit, model_j=None):
-    js = {0, total - 1}
-    if model_j is not None and 0 <= model_j < total:
-        js.add(model_j)
-    k = unit
-    while k < total and len(js) < 40:
-        js.update({k - 1, k})
-        k += unit
-    for _ in range(24):
-        js.add(rng.randrange(total))
-    return sorted(j for j in js if 0 <= j < total)
-
-
 def read_task(prop, cfg, tier, seed):
     """cfg: block_size, sector_size, n_blocks (request <= n_blocks blocks' worth), has_parent, via ('read_sectors'|'_read'),
     tail (allow the request to run past the end of the disk, C08 back-end contract)."""
@@ -62,26 +50,6 @@ def read_task(prop, cfg, tier, seed):
     ctx = Ctx(prop, "vhdx.read", cfg, tier, seed, engine_kw=dict(max_decisions=cfg.get("max_decisions", 600)))
     rng = random.Random(seed)
     touched = (max_count + spb - 1) // spb + 1
-
-    def in_process(desc):
-        from symx import replay_runner
-
-        fs = {k: replay_runner.mkfile(v) for k, v in desc["files"].items()}
-        op = {k: replay_runner.mkfile(v) for k, v in desc.get("opaque", {}).items()}
-        obj = replay_runner.OPENERS[desc["entry"]](fs, op, desc["params"])
-        try:
-            res = replay_runner.do_call(obj, desc["call"])
-        except Exception as ex:  # noqa: BLE001
-            return "violation", f"raised {type(ex).__name__}: {ex}"
-        exp = desc["expect"]
-        if len(res) != exp["len"]:
-            return "violation", f"length {len(res)} != {exp['len']}"
-        for j, v in exp["bytes"]:
-            if res[j] != v:
-                return "violation", f"byte {j}: {res[j]} != {v}"
-        return "ok", "match"
-
-    ctx.replay_in_process = in_process
 
     def body(E, ctx):
         fh = SymFile("img")
@@ -110,59 +78,37 @@ def read_task(prop, cfg, tier, seed):
             e = files.word_at("img", bat_off + 8 * (b + b // cr), 8, "le")
             E.assume(spec.valid_payload_state(e % 8, has_parent))
 
-        vars_ = dict(size=core.bv(size), bat_off=core.bv(bat_off), sector=core.bv(sector), count=core.bv(count))
-        j = z3.BitVec("j", core.S.W)
-        vars_["j"] = j
+        j = E.var("j", 0, 1 << 50)
+        vars_ = dict(size=size, bat_off=bat_off, sector=sector, count=count, j=j)
         explen = core.sym_min(count * ss, size - sector * ss) if cfg.get("tail") else count * ss
+        mem = SymMem("img")
+        par = SymOpaque("parent") if has_parent else None
 
-        def build(model):
-            pat = replay.patches_from_apps(model, E.apps)
-            fdesc = dict(size=1 << 70, seed=seed & 0xFFFF,
-                         patches=[[a, b.hex()] for a, b in sorted(pat.get("img", {}).items())])
-            d = dict(entry="vhdx_new",
-                     params=dict(size=replay.model_int(model, vars_["size"]), block_size=block_size, sector_size=ss,
-                                 bat_offset=replay.model_int(model, vars_["bat_off"]), has_parent=has_parent),
-                     files=dict(img=fdesc),
-                     call=[via] + ([replay.model_int(model, vars_["sector"]), replay.model_int(model, vars_["count"])]
-                                   if via == "read_sectors" else
-                                   [replay.model_int(model, vars_["sector"]) * ss,
-                                    replay.model_int(model, vars_["count"]) * ss]))
-            if has_parent:
-                d["opaque"] = dict(parent=dict(size=1 << 70, seed=(seed & 0xFFFF) + 77))
-            return d
+        def spec_at(model, g, mems, ops):
+            return spec.guest_byte(g, mi(model, bat_off), block_size, ss, mems["img"], ops.get("parent"))
 
-        def expect(model, desc):
-            from symx import replay_runner
+        def call(mo):
+            if via == "read_sectors":
+                return [via, mi(mo, sector), mi(mo, count)]
+            return [via, mi(mo, sector) * ss, mi(mo, count) * ss]
 
-            fs = {"img": replay_runner.mkfile(desc["files"]["img"])}
-            op = {k: replay_runner.mkfile(v) for k, v in desc.get("opaque", {}).items()}
-            env = replay.ConcreteEnv({}, fs, op)
-            sec = replay.model_int(model, vars_["sector"])
-            cnt = replay.model_int(model, vars_["count"])
-            total = replay.model_int(model, core.bv(explen))
-            try:
-                mj = replay.model_int(model, j)
-            except Exception:  # noqa: BLE001
-                mj = None
-            out = []
-            for jj in sample_positions(rng, total, ss, mj):
-                t = spec.guest_byte(V(sec * ss + jj), V(desc["params"]["bat_offset"]), block_size, ss, has_parent)
-                out.append([jj, replay.ceval(t, env)])
-            return dict(len=total, bytes=out)
-
-        prefer = [core.bv(count) * V(ss) <= V(16 * MB)]
-        ctx.scenario = Scenario(vars_, build, expect, prefer=prefer if block_size <= 8 * MB else [])
+        ctx.scenario = read_scenario(
+            ctx, E, vars_, entry="vhdx_new",
+            params=lambda mo: dict(size=mi(mo, size), block_size=block_size, sector_size=ss, bat_offset=mi(mo, bat_off),
+                                   has_parent=has_parent),
+            call=call, total=lambda mo: mi(mo, explen), g0=lambda mo: mi(mo, sector) * ss, spec_at=spec_at, unit=ss,
+            extra_units=(block_size,), rng=rng, j=j, opaque=("parent",) if has_parent else (),
+            prefer=[count * ss <= 16 * MB] if block_size <= 8 * MB else [])
         if via == "read_sectors":
             res = obj.read_sectors(sector, count)
         else:
             res = obj._read(sector * ss, count * ss)
-        g = core.bv(sector) * V(ss) + j
-        sv = spec.guest_byte(g, core.bv(bat_off), block_size, ss, has_parent)
-        bad = byte_obligation(res, j, core.bv(explen), sv)
+        sv = spec.guest_byte(sector * ss + j, bat_off, block_size, ss, mem, par)
+        bad = byte_obligation(res, j, explen, sv)
         if has_parent:
             # the parent must only ever be asked for sectors inside the request
             for (ps, pc) in parent.calls:
-                bad = z3.Or(bad, core.bv(ps) < core.bv(sector), core.bv(ps) + core.bv(pc) > core.bv(sector) + core.bv(count))
+                bad.append(core.sym_or(ps < sector, ps + pc > sector + count))
         if ctx.obligation(bad, "read differs from the guest-visible content"):
             ctx.witness()
         return None
